@@ -39,6 +39,29 @@ def run(R):
     for i in range(3):
         evs.append(({"op": "x25519_try_from", "kind": ("secret", "public", "shared")[i], "bytes": rb("tf")[: (32, 31, 0)[i]] + ([1] if i == 1 else [])[:0]}, ("try_from", i)))
     evs.append(({"op": "x25519_try_from", "kind": "public", "bytes": rb("tf") + [7]}, ("try_from", 33)))
+    # result-directed: (k, u) chosen so that the shared secret itself is a boundary value of the field representation (a small integer
+    # >= 19, a low limb nearly full, just below p): u = u([k^-1 mod L] Q) for a prime-order Q with u(Q) = the target
+    nt = 0
+    want = 60 if thorough else 14
+    fams = {}
+    for v in cc.x25519_result_targets(R.rng, want):
+        fam = "small" if v < 100 else ("below-p" if v > cc.P - 100 else "limb")
+        if fams.get(fam, 0) >= (want + 2) // 3:
+            continue
+        k = rb("rk%d" % nt)
+        u = cc.x25519_preimage(v, k)
+        if u is None:
+            continue
+        fams[fam] = fams.get(fam, 0) + 1
+        evs.append(({"op": "curve25519" if nt % 2 else "x25519_dh", "n": k, "p": cc.le32(u)}, ("result", fam, nt)))
+        nt += 1
+        if nt >= want:
+            break
+    R.extra["result_directed_x25519"] = fams
+    # every conversion of the byte wrappers and PublicKey's derived comparisons (equal, first byte decides, last byte decides)
+    ca = rb("cv")
+    for i, cb in enumerate([list(ca), [ca[0] ^ 1] + ca[1:], ca[:31] + [ca[31] ^ 0x80], rb("cv2")]):
+        evs.append(({"op": "x25519_conv", "a": ca, "b": cb}, ("conv", i)))
     hs = []
     chain_id = None
     for e, key in evs:
